@@ -2414,7 +2414,7 @@ class IndicatorSumConstraint(Functional):
         if self.sum_value == 0:
             # No relative comparison with 0 possible. The rounding error of
             # the sum is relative to the magnitude of the entries.
-            scale = x.ufuncs.absolute().ufuncs.sum()
+            scale = max(x.ufuncs.absolute().ufuncs.sum(), 1.0)
             is_feasible = abs(x.ufuncs.sum()) <= self.sum_rtol * scale
         else:
             is_feasible = (abs(x.ufuncs.sum() / self.sum_value - 1) <=
